@@ -60,6 +60,11 @@ def check(col: Collector, tier: str):
     import_obligations(col, "C09.R12", "c06", lambda o: o.rule == "C06.R5" and (o.detail in ("unknown-key-raises", "allowed-keys-are-a-constant-of-this-backend",
                                                                                              "element_type-iff-contains_collection") or o.detail.startswith("allowed-key-read:")),
                        "malformed or unknown collection metadata must be refused - for every history - and no accepted key may be dropped")
+    import_obligations(col, "C09.R12", "c06", lambda o: o.detail in ("new-code-value-for-every-call", "refuses-other-backends"),
+                       "the collection call must stay the query's own node (a rebuilt call loses its keywords before the keyword refusal sees them) and a "
+                       "declaration for another backend must be refused")
+    import_obligations(col, "C09.R12", "c18", lambda o: o.detail == "bank-name-argument-left-as-the-query-wrote-it",
+                       "arguments that are rebuilt are arguments that can be dropped")
     # a name is refused unless it is bound where it is used: a lambda's parameters live in that lambda's frame only
     from sa.props._tr import check_lambda_frames
     check_lambda_frames(col, "C09.R13", repo, m)
